@@ -299,7 +299,37 @@ def exec_for(it, s, frame):
         raise PathEnd("loop cut")
     ex.assume(spec.inv(_ns(it, frame, spec, extra), n))
     ex.cover(f"{label}.exit")
+    # python leaves the loop variable bound to the last element: if the function reads it outside the loop, give it that value
+    # (one case split on "at least one iteration"); otherwise it is never looked at and keeps whatever it held
+    if _target_read_outside(frame, s):
+        if it.truth(SBool(I(n) > 0)):
+            it.assign(s.target, view.at(n - 1), frame)
     it.exec_block(s.orelse, frame)
+
+
+def _target_read_outside(frame, s):
+    names = set(assigned_names([s.target]))
+    fn = frame.closure.node if frame.closure is not None else None
+    if fn is None or not names:
+        return False
+    inside = {id(n) for n in ast.walk(s)} - {id(x) for o in s.orelse for x in ast.walk(o)}
+    # reads under another binder of the same name (a later `for x in ...`, a comprehension over x, a nested def/lambda parameter) see that binding
+    rebound = set()
+    for n in ast.walk(fn):
+        if n is s:
+            continue
+        if isinstance(n, ast.For) and set(assigned_names([n.target])) & names:
+            rebound |= {id(x) for st in n.body for x in ast.walk(st)}
+        elif isinstance(n, (ast.ListComp, ast.SetComp, ast.GeneratorExp, ast.DictComp)):
+            if any(set(assigned_names([g.target])) & names for g in n.generators):
+                rebound |= {id(x) for x in ast.walk(n)}
+        elif isinstance(n, (ast.FunctionDef, ast.Lambda)) and n is not fn:
+            if {a.arg for a in n.args.args + n.args.kwonlyargs} & names:
+                rebound |= {id(x) for x in ast.walk(n)}
+    for n in ast.walk(fn):
+        if isinstance(n, ast.Name) and n.id in names and isinstance(n.ctx, ast.Load) and id(n) not in inside and id(n) not in rebound:
+            return True
+    return False
 
 
 def bounded_for(it, s, frame, view):
